@@ -59,7 +59,7 @@ def fixed_cases(tier):
 
 
 def examples(tier):
-    return 3600 if tier == "quick" else 50000
+    return 3600 if tier == "quick" else 90000
 
 
 def wall_budget(tier):
